@@ -90,6 +90,19 @@ class Inv:
         a = self.F.adt_of(ty)
         if a is None and "::" in base and not base.startswith("<") and base.split("::")[0] not in self.F.crates:
             return TOP      # ADT of an external crate (ed25519::Signature, pkcs8 documents, digest states): opaque, only reachable through its own API
+        mv = re.match(r"^(?:\w+::)*vec::Vec<(.*)>$", ty)
+        if mv:
+            from absint import split_top
+            e = self.value(split_top(mv.group(1))[0].strip(), owner, depth + 1)
+            return ("vec", e, 0, 2**20) if e is not None else None
+        if a and a["kind"] == "Enum" and depth < 8 and not a.get("n_generics"):
+            vs = []
+            for vi, var in enumerate(a["variants"]):
+                fs = [self.value(f["ty"], owner, depth + 1) for f in var["fields"]]
+                if any(x is None for x in fs):
+                    return None
+                vs.append((vi, tuple(fs)))
+            return ("en", tuple(vs))
         if a and a["kind"] == "Struct" and depth < 8:
             targs = []
             mg = re.match(r"^[^<]*<(.*)>$", ty)
@@ -250,9 +263,9 @@ class Driver:
             opt = ("en", ((0, ()), (1, (pt,))))
             return {0: self.coll_iter(sc), 1: ("__coll_vals", opt, 2**20)}
         if nm == "optional_mixed_multiscalar_mul" and tr.endswith("traits::VartimePrecomputedMultiscalarMul"):
-            opt = ("en", ((0, ()), (1, (ep,))))
-            from absint import TOP as _TOP
-            return {0: _TOP, 1: self.coll_iter(sc), 2: self.coll_iter(sc), 3: ("__coll_vals", opt, 2**20)}
+            opt = ("en", ((0, ()), (1, (rp if "Ristretto" in st else ep,))))
+            selfv = inv.value(f["mir"]["locals"][1]["ty"])
+            return {0: selfv if selfv is not None else TOP, 1: self.coll_iter(sc), 2: self.coll_iter(sc), 3: ("__coll_vals", opt, 2**20)}
         if nm in ("sum", "product") and re.search(r"iter::(Sum|Product)<T>$", tr):
             el = inv.value(st) or (sc if st.endswith("Scalar") else (rp if "Ristretto" in st else ep))
             return {0: self.coll_iter(el)}
